@@ -263,3 +263,47 @@ A(V("c15-sbs-le32", "C15", "misc/iftSparseBitSet.py", "            self.data.app
 A(V("c15-txt-nibbles", "C15", "misc/textTools.py", "        r = r + h[(i >> 4) & 0xF] + h[i & 0xF]", "        r = r + h[i & 0xF] + h[(i >> 4) & 0xF]", "TXT-pair"))
 A(V("c15-txt-pad", "C15", "misc/textTools.py", '            data += b"\\0" * (size - remainder)', '            data += b"\\0" * remainder', "TXT-pair"))
 A(V("c15-agl-lower", "C15", "agl.py", "    if any(c >= 0xD800 and c <= 0xDFFF for c in chars):", "    if any(c > 0xD800 and c <= 0xDFFF for c in chars):", "AGL-sur"))
+
+# ---- C14 (third session) -----------------------------------------------------
+FP = "pens/filterPen.py"
+TP = "pens/transformPen.py"
+RP = "pens/roundingPen.py"
+RC = "pens/recordingPen.py"
+A(V("c14-filter-crossed", "C14", FP, "    def lineTo(self, pt):\n        self._outPen.lineTo(pt)", "    def lineTo(self, pt):\n        self._outPen.moveTo(pt)", "PEN-fwd"))
+A(V("c14-filter-kwargs-dropped", "C14", FP, "        self._outPen.addComponent(glyphName, transformation, **kwargs)", "        self._outPen.addComponent(glyphName, transformation)", "PEN-fwd"))
+A(V("c14-tee-unstarred", "C14", "pens/teePen.py", "            pen.qCurveTo(*points)", "            pen.qCurveTo(points)", "PEN-fwd"))
+A(V("c14-transform-raw-point", "C14", TP, "        self._outPen.lineTo(self._transformPoint(pt))", "        self._outPen.lineTo(pt)", "PEN-coord"))
+A(V("c14-transform-qcurve-raw-branch", "C14", TP, "        else:\n            points = self._transformPoints(points)\n        self._outPen.qCurveTo(*points)", "        self._outPen.qCurveTo(*points)", "PEN-coord"))
+A(V("c14-transform-no-qcurve", "C14", TP, "    def qCurveTo(self, *points):\n        if points[-1] is None:\n            points = self._transformPoints(points[:-1]) + [None]\n        else:\n            points = self._transformPoints(points)\n        self._outPen.qCurveTo(*points)\n", "", "PEN-coord"))
+A(V("c14-rounding-none", "C14", RP, "                (self.roundFunc(pt[0]), self.roundFunc(pt[1])) if pt is not None else None\n                for pt in points", "                (self.roundFunc(pt[0]), self.roundFunc(pt[1]))\n                for pt in points", "PEN-none"))
+A(V("c14-record-wrong-op", "C14", RC, '        self.value.append(("qCurveTo", points))', '        self.value.append(("curveTo", points))', "PEN-rec"))
+A(V("c14-record-drop-operand", "C14", RC, '        self.value.append(("addComponent", (glyphName, transformation)))', '        self.value.append(("addComponent", (glyphName,)))', "PEN-rec"))
+A(V("c14-replay-unstarred", "C14", RC, "        getattr(pen, operator)(*operands)", "        getattr(pen, operator)(operands)", "PEN-rec"))
+A(V("c14-vocab-typo", "C14", "pens/pointPen.py", '            elif segmentType == "qcurve":\n                pen.qCurveTo(*points)', '            elif segmentType == "qCurve":\n                pen.qCurveTo(*points)', "PEN-vocab"))
+A(V("c14-disp-crossed", "C14", "pens/pointPen.py", '            elif segmentType == "curve":\n                pen.curveTo(*points)', '            elif segmentType == "curve":\n                pen.qCurveTo(*points)', "PEN-disp"))
+A(V("c14-vocab-mixed", "C14", "pens/reverseContourPen.py", '    closed = contourType == "closePath"', '    closed = contourType == "closepath"', "PEN-vocab"))
+# benign: rename a parameter, reorder methods' internals, equivalent spelling of the None test
+A(V("c14-benign-rename-param", "C14", FP, "    def lineTo(self, pt):\n        self._outPen.lineTo(pt)", "    def lineTo(self, point):\n        self._outPen.lineTo(point)", None, expect=0))
+A(V("c14-benign-none-spelling", "C14", TP, "        if points[-1] is None:\n            points = self._transformPoints(points[:-1]) + [None]\n        else:\n            points = self._transformPoints(points)", "        if points[-1] is not None:\n            points = self._transformPoints(points)\n        else:\n            points = self._transformPoints(points[:-1]) + [None]", None, expect=0))
+A(V("c14-benign-local-outpen", "C14", RP, "    def moveTo(self, pt):\n        self._outPen.moveTo((self.roundFunc(pt[0]), self.roundFunc(pt[1])))", "    def moveTo(self, pt):\n        rounded = (self.roundFunc(pt[0]), self.roundFunc(pt[1]))\n        self._outPen.moveTo(rounded)", None, expect=0))
+
+# ---- C18 (third session) -----------------------------------------------------
+ML = "merge/layout.py"
+MC = "merge/cmap.py"
+MT = "merge/tables.py"
+A(V("c18-rename-if-not-while", "C18", MC, '                while (glyphName + "." + repr(n)) in megaOrder:', '                if (glyphName + "." + repr(n)) in megaOrder:', "MRG-names"))
+A(V("c18-no-writeback", "C18", MC, "                glyphOrder[i] = glyphName\n", "", "MRG-names"))
+A(V("c18-cmap-last-wins", "C18", MC, "            if oldgid is None:\n                cmap[uni] = gid", "            if oldgid is None or True:\n                cmap[uni] = gid", "MRG-cmap"))
+A(V("c18-cmap-reversed", "C18", MC, "    for table, fontIdx in chosenCmapTables:", "    for table, fontIdx in reversed(chosenCmapTables):", "MRG-cmap"))
+A(V("c18-metrics-first", "C18", MT, '    "metrics": sumDicts,', '    "metrics": first,', "MRG-union"))
+A(V("c18-sumdicts-break", "C18", "merge/util.py", "    for item in lst:\n        d.update(item)\n    return d", "    for item in lst:\n        d.update(item)\n        break\n    return d", "MRG-union"))
+A(V("c18-map-missing-class", "C18", ML, "    otTables.MarkLigPos,\n    otTables.MarkMarkPos,\n)\ndef mapLookups", "    otTables.MarkLigPos,\n)\ndef mapLookups", "MRG-map"))
+A(V("c18-helper-typo", "C18", ML, '                self.RuleSet = ChainTyp + "ClassSet"', '                self.RuleSet = ChainTyp + "ClassRuleSet"', "MRG-map"))
+A(V("c18-post-skips-lookuplist", "C18", ML, "            lookupMap = NonhashableDict(t.table.LookupList.Lookup)\n            t.table.FeatureList.mapLookups(lookupMap)\n            t.table.LookupList.mapLookups(lookupMap)", "            lookupMap = NonhashableDict(t.table.LookupList.Lookup)\n            t.table.FeatureList.mapLookups(lookupMap)", "MRG-sym"))
+A(V("c18-post-guard-dropped", "C18", ML, "                and GDEF.table.Version >= 0x00010002\n                and GDEF.table.MarkGlyphSetsDef\n            ):\n                markFilteringSetMap = NonhashableDict(", "                and GDEF.table.Version >= 0x00010002\n            ):\n                markFilteringSetMap = NonhashableDict(", "MRG-sym"))
+A(V("c18-benign-rename-local", "C18", MC, "    megaOrder = {}\n    for glyphOrder in glyphOrders:", "    megaOrder = dict()\n    for glyphOrder in glyphOrders:", None, expect=0))
+A(V("c18-benign-keys-call", "C18", MC, "    merger.glyphOrder = megaOrder = list(megaOrder.keys())", "    merger.glyphOrder = list(megaOrder)", None, expect=0))
+# ---- C07 SUB-ctx ---------------------------------------------------------------
+SU = "subset/__init__.py"
+A(V("c07-ctx-setter-order", "C07", SU, "                def SetChainContextData(r, d):\n                    r.BacktrackClassDef, r.InputClassDef, r.LookAheadClassDef = d", "                def SetChainContextData(r, d):\n                    r.InputClassDef, r.BacktrackClassDef, r.LookAheadClassDef = d", "SUB-ctx"))
+A(V("c07-ctx-name-typo", "C07", SU, '                self.RuleSetCount = ChainTyp + "ClassSetCount"', '                self.RuleSetCount = ChainTyp + "ClassSetsCount"', "SUB-ctx"))
